@@ -144,6 +144,17 @@ def oracle_buffers(run, tier, rng):
                     k = next((i for i in range(max(len(oc), len(om))) if (oc[i] if i < len(oc) else None) != (om[i] if i < len(om) else None)), len(oc))
                     what = "sanitizer/guard-page report or output difference: backend=%s placement=%s%s op=%r rc=%d %s" % (be, pre, " inplace" if env else "", lines[k][:70] if k < len(lines) else "?", rc, err.strip().split("\n")[0][:200] if err else "")
                     return {"ok": False, "what": what, "witness": {"lines": lines[: k + 1]}, "runs": n}
+    # every key / tweak / counter length with the buffer ending flush against a PROT_NONE page
+    kl = gen_ops.gen_keylen(Rng(rng.next()), junk_patterns=(0xA5,))
+    for name, body in (kl if tier != "quick" else kl[:6]):
+        lines = _hdr(run, cfg, cfg.backends()[-1]) + ["guard 1"] + [l for l in body if not l.startswith("junk ")]
+        oc, rc, err = vlib.run_driver(cexe, "\n".join(lines) + "\n", {"ASAN_OPTIONS": "detect_leaks=0:abort_on_error=0"})
+        om, _, _ = vlib.run_driver(model, "\n".join(lines) + "\n")
+        n += 1; placements += 1
+        if rc != 0 or oc != om:
+            k = next((i for i in range(max(len(oc), len(om))) if (oc[i] if i < len(oc) else None) != (om[i] if i < len(om) else None)), len(oc))
+            what = "read beyond a key/tweak buffer or output difference: key-length script %s op=%r rc=%d %s" % (name, lines[k][:70] if k < len(lines) else "?", rc, err.strip().split("\n")[0][:200] if err else "")
+            return {"ok": False, "what": what, "witness": {"lines": lines[: k + 1]}, "runs": n}
     return {"ok": True, "runs": n, "placements": placements, "alignments": aligns, "sanitizers": "ASan+UBSan (alignment check off: unaligned word access is the documented SKINNY_UNALIGNED choice)"}
 
 def oracle_junk(run, tier, rng):
@@ -530,7 +541,7 @@ thm("C08", ["C08"], ["C08_no_leak_events", "C08_table_complete"])
 thm("C09", ["C08"], ["C09_block_functions", "C09_table_complete", "C11_no_junk_in_loaders"])
 PROPS["C09"]["modules"].append("SkinnyVerif.Properties.C11")
 thm("C18", ["C18", "C13"], ["C18_no_mutable_statics", "C18_census_nonempty", "C18_parallel_crypt_read_only", "C18_mantis_parallel_crypt_read_only", "setVal_comm", "C13_deterministic"])
-thm("C19", ["C12", "C04", "C06"], ["C12_skinny128", "C12_skinny64", "C04_skinny128", "C04_skinny64", "C05_stream"])
+thm("C19", ["C19", "C06"], ["C19_skinny128", "C19_skinny128_eq_C", "C19_tweaked128", "opsArd128_correct", "C01_skinny128_ops", "C04_skinny128_ops", "C05_stream"])
 thm("C20", ["C20"], ["C20_ctr_tool", "C20_ctr_tool_roundtrip", "C20_ecb_tool", "C20_increment_tweak", "C20_tweak_of_block", "C20_tweak_tool", "readChunks_flatten"])
 thm("C11", ["C11"], ["C11_skinny128", "C11_skinny64", "C11_tweaked128", "C11_no_junk_in_loaders"])
 thm("C12", ["C12"], ["C12_skinny128", "C12_skinny64", "C12_tweaked128", "C12_tweaked64"])
